@@ -42,7 +42,8 @@ def run(tier, seed):
     bases = list(multifile.BASES) + ([] if quick else list(multifile.BASES5))
     for base in bases:
         names = [n for n, _ in base.globs]
-        if quick:
+        if quick or len(names) > 4:
+            # (the 5-global base of the thorough tier is enumerated like the quick tier: its full product is 29 160 programs)
             import itertools
             perms = list(itertools.permutations(names))
             a_all = [dict(zip(names, a)) for a in itertools.product((0, 1, 2), repeat=len(names))]
@@ -66,7 +67,7 @@ def run(tier, seed):
         "exhaustive": True,
         "rule": "a case = (base program, permutation of its movable globals, assignment of them to 3 files); each compiled by the real CLI and executed",
         "bounds_completed": {"base_programs": [b.name for b in bases], "movable_globals": "4 (thorough: one base with 5)",
-                             "permutations": "all", "file_assignments": "all 3^n" if not quick else "all 3^n in canonical order; 3 assignments under every permutation"},
+                             "permutations": "all", "file_assignments": "all 3^n for the 4-global bases; 5-global base: all 3^5 in canonical order and 3 assignments under every permutation" if not quick else "all 3^n in canonical order; 3 assignments under every permutation"},
         "distinct_outcomes": len(bases) + len({m.kind for m in mism}),
         "compilations": len(jobs),
         "samples": [{"base": b.name, "order": list(p), "files": a} for b, p, a in (jobs[0], jobs[len(jobs) // 2], jobs[-1])],
